@@ -1564,7 +1564,7 @@ def tier_c(run, thorough):
                 for dt, kind in (('float64', 'real'), ('int16', 'i16')):
                     case = dict(seed=15400 + n_cond, n_cond=n_cond, n1=2, n2=3, kind=kind, method=m, sigma=sg, dtype=dt, sigma_dtype=sdt)
                     bd.check(orc_input_forms, case, 'sigma_k-dtype', function='_cosine_cov_weighted')
-        if False:  # pending triage: uint-dtype,bures / bool-dtype,bures
+        if True:   # repaired in /repo dd59809d (was pending triage): uint-dtype,bures / bool-dtype,bures
             for m in BURES:
                 for dt1, dt2, kind, ic in (('uint8', 'uint8', 'euclid-int', 'uint-dtype,bures'), ('uint16', 'float64', 'euclid-int', 'uint-dtype,bures'),
                                            ('bool', 'bool', 'categorical', 'bool-dtype,bures')):
